@@ -45,6 +45,21 @@ pub fn unhex_raw(s: &str) -> Result<Vec<u8>, String> {
 /// Parse a byte-string argument. A leading '!' marks the bytes as secret:
 /// in taint mode they are flagged "undefined" for memcheck.
 pub fn bytes(s: &str) -> Result<Vec<u8>, String> {
+    // "@off,len@<hex>": only the sub-range [off, off+len) is secret
+    if let Some(t) = s.strip_prefix('@') {
+        let mut it = t.splitn(2, '@');
+        let spec = it.next().ok_or("bad partial-taint spec")?;
+        let h = it.next().ok_or("bad partial-taint spec")?;
+        let mut sp = spec.split(',');
+        let off = sp.next().ok_or("bad spec")?.parse::<usize>().map_err(|e| e.to_string())?;
+        let len = sp.next().ok_or("bad spec")?.parse::<usize>().map_err(|e| e.to_string())?;
+        let mut v = unhex_raw(h)?;
+        if off + len > v.len() {
+            return Err("partial-taint range out of bounds".to_string());
+        }
+        taint(&mut v[off..off + len]);
+        return Ok(v);
+    }
     if let Some(t) = s.strip_prefix('!') {
         let mut v = unhex_raw(t)?;
         taint(&mut v);
